@@ -959,12 +959,19 @@ def nonpd_recipes(tier):
     def rec(draw):
         cplx = draw(st.booleans())
         n, kind = draw(st.sampled_from(NONPD_LAYOUTS))
-        flavour = draw(st.sampled_from(["negdef", "indef", "indef", "indef", "semi", "zero_first", "diag"]))
+        flavour = draw(st.sampled_from(["negdef", "indef", "indef", "indef", "semi", "zero_first", "diag", "diag_half"]))
         ent = st.integers(-2, 2)
         if flavour == "diag":
             dg = [draw(st.integers(-4, 4)) for _ in range(n)]
             if all(v > 0 for v in dg):
                 dg[draw(st.integers(0, n - 1))] = -draw(st.integers(0, 3))
+            M = np.diag(np.array(dg, dtype=float))
+        elif flavour == "diag_half":
+            # start with r0 = j/2 (x0 = 1.5 M^-1 j): the compiled solver's energy bookkeeping after the
+            # fallback step uses the residual of the start (see the report / class nonpd_info_differs)
+            dg = [draw(st.sampled_from([-4, -2, -1, -1, 1, 2])) for _ in range(n)]
+            if all(v > 0 for v in dg):
+                dg[draw(st.integers(0, n - 1))] = -2
             M = np.diag(np.array(dg, dtype=float))
         elif flavour == "zero_first":
             a = draw(st.integers(1, 4))
@@ -996,6 +1003,8 @@ def nonpd_recipes(tier):
                 j[0] = 1.0
             x0 = None if draw(st.booleans()) else [draw(st.integers(-4, 4)) / 2.0 * draw(st.sampled_from(units))
                                                    for _ in range(n)]
+            if flavour == "diag_half":
+                x0 = [1.5 * v / d for v, d in zip(j, dg)]
         crit = draw(st.sampled_from(["default", "default", "resnorm", "absdelta", "both"]))
         return {"cplx": cplx, "kind": kind,
                 "M": [[_cj(v) for v in row] for row in np.asarray(M, dtype=np.complex128)],
@@ -1011,18 +1020,18 @@ def nonpd_recipes(tier):
 _BUDGET = float(os.environ.get("VERIF_C15_BUDGET", "50"))
 
 SUBS = [
-    Sub(name="hpd_stopping", check=check_hpd, strategy=hpd_recipes, quick=128, thorough=12000, shards=16, jax=True,
+    Sub(name="hpd_stopping", check=check_hpd, strategy=hpd_recipes, quick=128, thorough=2400, shards=16, jax=True,
         budget_quick=_BUDGET,
         rule="HPD Q diag(lambda) Q^H (n<=24, kappa<=2^10 quick) x stopping configuration x pytree kind; success => "
              "criterion re-evaluated on the true residual/energy; _cg vs _static_cg on x, info, nit, success; "
              "non-trivial = >= 3 iterations or convergence exactly at maxiter"),
-    Sub(name="boundary_exact", check=check_boundary, strategy=boundary_recipes, quick=56, thorough=4000, shards=7,
+    Sub(name="boundary_exact", check=check_boundary, strategy=boundary_recipes, quick=56, thorough=560, shards=7,
         jax=True, budget_quick=_BUDGET,
         rule="exact dyadic diagonal systems: first iterate exactly on / one ulp above / below the resnorm or absdelta "
              "threshold with maxiter 1 or 2, exact one-step and zero-step convergence; eager and compiled must take "
              "the same decision; non-trivial = threshold exactly equal to the iterate's value, miniter beyond an "
              "exact solution, or x0 the exact solution"),
-    Sub(name="nonpd", check=check_nonpd, strategy=nonpd_recipes, quick=128, thorough=8000, shards=8, jax=True,
+    Sub(name="nonpd", check=check_nonpd, strategy=nonpd_recipes, quick=128, thorough=2000, shards=8, jax=True,
         budget_quick=_BUDGET,
         rule="integer Hermitian B diag(s) B^H with some s<=0 (indefinite, negative (semi)definite, singular), "
              "_raise_nonposdef both ways: raise -> eager ValueError and compiled info<0 when a non-positive "
